@@ -1,6 +1,9 @@
 """C12 — a module's symbols are located once, however concurrent lookups interleave."""
 import itertools
+import os
+import re
 
+import vlib
 from runner import PropBase
 from vlib import Rng
 
@@ -9,6 +12,45 @@ LEAF_OF_CF = [0, 1, 1, 2, 3]          # cf 1 and 2 are "lib0.so" and "/x/lib0.so
 NCF, NCI, NDF, NDI = 5, 3, 3, 3
 OK, NOTFOUND, MISSING, LOAD, PARSE = range(5)
 STAT = {OK: (1, 0), NOTFOUND: (0, 0), MISSING: (0, 0), LOAD: (0, 0), PARSE: (1, 1)}
+
+
+# what the generator, the model (C12/Model.v: outcome) and the harness know about
+EXPECT_ENUMS = {
+    "SymbolError": ["NotFound", "MissingDebugFileOrId", "LoadError", "ParseError"],
+    "FileError": ["NotFound"],
+    "FileKind": ["BreakpadSym", "Binary", "ExtraDebugInfo"],
+}
+
+
+def check_enums():
+    """Translator-like guard: the answer classes a supplier can give (SymbolError, FileError) and the file
+    kinds must be exactly the ones this check enumerates; abort loudly otherwise (a new variant would be a
+    class of remembered outcome the cases never exercise)."""
+    path = os.path.join(vlib.REPO, "breakpad-symbols", "src", "lib.rs")
+    src = vlib.strip_rust_comments(open(path).read()) if hasattr(vlib, "strip_rust_comments") else re.sub(r"//[^\n]*", "", open(path).read())
+    for name, want in EXPECT_ENUMS.items():
+        m = re.search(r"pub enum %s\s*\{(.*?)\n\}" % name, src, re.S)
+        if not m:
+            raise vlib.CheckFailure("C12: enum %s not found in %s (source changed shape)" % (name, path))
+        got = re.findall(r"^\s{4}([A-Z][A-Za-z0-9]*)\s*(?:\(|\{|,|$)", m.group(1), re.M)
+        if got != want:
+            raise vlib.CheckFailure("C12: enum %s has variants %r, the check knows %r — extend Model.v's outcome, "
+                                    "the mock supplier and the generator before trusting this check" % (name, got, want))
+    # get_symbols must classify exactly these error variants (its match has no wildcard arm)
+    m = re.search(r"async fn get_symbols\b(.*?)\n    \}\n", src, re.S)
+    if not m:
+        raise vlib.CheckFailure("C12: Symbolizer::get_symbols not found")
+    arms = re.findall(r"Err\(SymbolError::([A-Za-z]+)", m.group(1))
+    if sorted(set(arms)) != sorted(EXPECT_ENUMS["SymbolError"]):
+        raise vlib.CheckFailure("C12: get_symbols matches on %r, expected one arm per variant %r" % (arms, EXPECT_ENUMS["SymbolError"]))
+
+
+def file_has_lookup(key, kind):
+    """mirror of breakpad_symbols::lookup(module, kind).is_some() for the harness' module pools"""
+    _, _, cf, ci, df, di = key
+    if kind == 1:
+        return cf != 0 and ci != 0 and df != 0 and di != 0
+    return df != 0 and di != 0
 
 
 def parse_case(line):
@@ -79,45 +121,58 @@ class C12(PropBase):
     translators = []
     coq_dirs = ["C12"]
     bins = ["c12"]
-    rule = ("case = (tasks: lists of (module key, API used), per key: suspensions, supplier answer, module identity "
-            "(code_file, code_id, debug_file, debug_id), poll schedule); mode 0 polls the real futures in schedule order then "
-            "round-robin; mode 1 is a wake-driven executor (only woken tasks are polled; the poll trace is compared). Exhaustive family: 2 tasks x 1..2 "
-            "lookups x 2 keys x suspensions 0..1 x all binary schedules of the tier's length; random family up to 4 tasks x 3 "
-            "lookups x 3 keys x 3 suspensions with spurious polls, starvation bursts and unknown task ids. A case is "
+    rule = ("case = (mode, tasks: lists of (module key, API or file kind), per key: suspensions, supplier answer, module identity "
+            "(code_file, code_id, debug_file, debug_id), schedule). mode 0: the real futures are polled in schedule order, then "
+            "round-robin; mode 1: wake-driven executor (only woken tasks are polled; the poll trace is compared); mode 2: concurrent "
+            "HttpSymbolSupplier::locate_file calls against a loopback server; mode 3: mode 1 plus drops of requesters waiting for a "
+            "lock; mode 4: the tasks are children of one join_all (shared waker). Exhaustive families: 2 tasks x 1..2 lookups x 2 keys "
+            "x suspensions 0..1 x all binary schedules of the tier's length; all 25 pairs of supplier answers (Ok and every SymbolError "
+            "variant) x all 2^6 schedules; 3 tasks x all pick sequences (wake-driven, with and without drops). Random families up to 4 "
+            "tasks x 3 lookups x 3 keys x 3 suspensions with spurious polls, starvation bursts and unknown task ids. A case is "
             "non-trivial when at least two tasks ask for the same key; distinct = distinct case lines")
     trusted_base = [
         "Coq 8.16.1 kernel (vm_compute only in the non-vacuity Examples)",
         "model C12/Model.v written by hand from breakpad-symbols/src/lib.rs (CachedAsyncResult::get, Symbolizer::get_symbols, "
         "module_key), cachemap2 0.3.0 cache_default and futures-util 0.3.31 lock::Mutex (MutexLockFuture::poll = try_lock, "
         "register waker, try_lock); tied to the code by the correspondence run over explicit poll orders",
-        "extraction: ExtrOcamlBasic only; ocaml/zconv.ml + ocaml/c12/main.ml glue; harness/src/bin/c12.rs (mock supplier, executor)",
+        "extraction: ExtrOcamlBasic only; ocaml/zconv.ml + ocaml/c12/main.ml glue; harness/src/bin/c12.rs (mock supplier, executors, loopback server)",
         "a task is a sequential future; the executor is single-threaded (std Mutex/Arc/atomics of the multi-threaded case assumed correct)",
         "wake-driven theorems: the supplier future wakes its task before answering Pending (contract of any correct future); "
-        "slab 0.4.9 hands out indices in increasing order while nothing is removed (checked by the mode-1 trace comparison)",
+        "waiter slab (slab 0.4.9 index reuse), wait keys and the drop hand-over are modelled in C12/WakeModel.v / DropModel.v and "
+        "checked by comparing full poll traces (modes 1 and 3)",
+        "join_all: JoinAll::Small of futures-util 0.3.31 (<= 30 children) polls every unfinished child in order with the parent's waker (mode 4 compares the number of parent polls)",
+        "locate_file_internal: FileModel.v reads http.rs as cache_default(file_key).get(closure); the closure's answer is a function of the "
+        "file key as long as distinct file keys do not share an on-disk cache path (mode 2 generates such keys); props/c12.py aborts when "
+        "SymbolError / FileError / FileKind gain or lose a variant",
     ]
     manifest = {
         "text": "Theorems (Coq, all schedules incl. spurious polls, any number of tasks/keys/suspensions, no bound): the supplier is "
                 "called at most once per key (c12_at_most_once), every finished lookup returns the single scripted answer of its "
-                "key incl. failures (c12_same_outcome), results are complete and in order at quiescence (c12_results_complete), "
-                "requested = processed = distinct keys at quiescence (c12_counters), some task can always progress "
-                "(c12_no_deadlock), under any fair schedule all tasks finish within T*work polls (c12_no_lost_request), and with "
-                "the futures Mutex's waiter slab modelled no wake-up is lost (c12_no_lost_wakeup) and a wake-driven executor "
-                "finishes within 2*work+ntasks polls whatever it picks (c12_wake_driven_finishes). The "
-                "model is tied to the real Symbolizer by polling boxed futures in the case's order (exhaustive for 2 tasks x <=2 "
-                "lookups x 2 keys x <=1 suspension, random up to 4x3x3x3, plus a wake-driven executor) in debug and release; an "
-                "independent oracle re-checks the property on the implementation's answers.",
-        "note": "Trusted: Coq kernel; hand-written model of CachedAsyncResult/get_symbols/futures Mutex (correspondence-checked, not "
-                "verified; the waiter-slab/waker model is tied by comparing full poll traces of a wake-driven executor); extraction + "
-                "OCaml/Rust glue; the supplier is assumed to wake the task whenever it answers Pending. Cancellation and "
-                "multi-threaded memory ordering are outside the property. No axioms.",
+                "key incl. every failure variant (c12_same_outcome), results are complete and in order at quiescence "
+                "(c12_results_complete), requested = processed = distinct keys at quiescence (c12_counters), some task can always "
+                "progress (c12_no_deadlock), under any fair schedule all tasks finish within T*work polls (c12_no_lost_request); with "
+                "the futures Mutex's waiter slab modelled no wake-up is lost (c12_no_lost_wakeup), a wake-driven executor finishes "
+                "within 2*work+ntasks polls whatever it picks (c12_wake_driven_finishes), join_all with its shared waker is a "
+                "round-robin schedule of the model, never left unwoken, at most work parent polls (c12_join_all_spurious_ok); "
+                "HttpSymbolSupplier::locate_file_internal is an instance over FileKey (c12_files_*); beyond the property: dropping a "
+                "requester that waits for a lock loses no wake-up (c12_drop_waiter_*). The model is tied to the real Symbolizer / "
+                "HttpSymbolSupplier by polling boxed futures in the case's order (exhaustive small spaces, random larger ones, "
+                "wake-driven, join_all, drops, loopback HTTP) in debug and release; an independent oracle re-checks the property on "
+                "the implementation's answers.",
+        "note": "Trusted: Coq kernel; hand-written model of CachedAsyncResult/get_symbols/futures Mutex incl. waiter slab and drop hand-over "
+                "(correspondence-checked by full poll traces, not verified); extraction + OCaml/Rust glue; the supplier is assumed to "
+                "wake the task whenever it answers Pending. Cancellation of the lock holder and multi-threaded memory ordering are "
+                "outside the property. No axioms.",
     }
-    assumptions = ["no cancellation (a dropped lookup future is outside the property)",
+    assumptions = ["no cancellation of a requester that holds the slot's lock inside the supplier (excluded by the property); dropping a "
+                   "requester that merely waits is covered by c12_drop_waiter_* and mode 3",
                    "one executor thread polls the tasks; std::sync::Mutex / Arc / atomics are assumed correct",
-                   "HttpSymbolSupplier::locate_file_internal uses the same CachedAsyncResult::get + cache_default pattern; "
-                   "it is covered by the model's theorems but exercised under C16, not here"]
+                   "locate_file_internal: distinct file keys of a configuration have distinct on-disk cache paths (otherwise one "
+                   "download can satisfy the other's local lookup — C16's subject)"]
 
     # ------------------------------------------------------------------ cases
     def gen_cases(self, tier, seed):
+        check_enums()
         rng = Rng(seed)
         cases = []
         dist = {"exhaustive": 0, "random": 0, "wake_driven": 0, "sched_len_exhaustive": 0}
@@ -210,6 +265,81 @@ class C12(PropBase):
                     cases.append(fmt_case(1, tasks, keys, picks))
                     nwx += 1
         dist["wake_driven_exhaustive"] = nwx
+        # every SymbolError variant (and Ok) as the remembered answer, exhaustively over all pairs:
+        # 2 tasks over 2 keys, suspensions 0..1, all 2^6 schedules
+        n5 = 0
+        for tl in ([[0, 1], [1, 0]], [[0], [0, 1]], [[0, 1], [0, 1]], [[0], [0]]):
+            for s0 in (0, 1):
+                for s1 in (0, 1):
+                    for o0 in range(5):
+                        for o1 in range(5):
+                            for sched in itertools.product((0, 1), repeat=6):
+                                var = PAIR_VARIANTS[n5 % len(PAIR_VARIANTS)]
+                                tasks = [[(k, (n5 + i) % 3) for i, k in enumerate(l)] for l in tl]
+                                cases.append(fmt_case(0, tasks, [(s0, o0) + var[0], (s1, o1) + var[1]], sched))
+                                n5 += 1
+        dist["all_error_variants_exhaustive"] = n5
+
+        # join_all (shared waker): no schedule — the parent polls every child whenever its waker fired
+        nj = 0
+        for l0 in lookups:
+            for l1 in lookups:
+                for sc in scripts:
+                    var = PAIR_VARIANTS[nj % len(PAIR_VARIANTS)]
+                    tasks = [[(k, (nj + i) % 3) for i, k in enumerate(l0)], [(k, (nj // 3 + i) % 3) for i, k in enumerate(l1)]]
+                    cases.append(fmt_case(4, tasks, [sc[0] + var[0], sc[1] + var[1]], []))
+                    nj += 1
+        for r in range(1500 if tier == "quick" else 30000):
+            nt = rng.range(2, 4)
+            nk = rng.range(1, 3)
+            idents = random_idents(rng, nk)
+            keys = [(rng.range(0, 3), rng.below(5)) + idents[i] for i in range(nk)]
+            tasks = [[(rng.below(nk), rng.below(3)) for _ in range(rng.range(1, 3))] for _ in range(nt)]
+            cases.append(fmt_case(4, tasks, keys, []))
+            nj += 1
+        dist["join_all"] = nj
+
+        # drops of waiting requesters (beyond the property's quantifier): wake-driven, a pick 100+u drops task u
+        nd = 0
+        for su in ((1,) if tier == "quick" else (1, 2)):
+            for picks in itertools.product((0, 1, 2, 100, 101, 102), repeat=5 if tier == "quick" else 6):
+                if not any(p >= 100 for p in picks):
+                    continue
+                keys = [(su, OK, 1, 1, 1, 1), (1, NOTFOUND, 1, 2, 1, 1)]
+                tasks = [[(0, 0)], [(0, 1), (1, 0)], [(0, 0)]]
+                cases.append(fmt_case(3, tasks, keys, picks))
+                nd += 1
+        for r in range(3000 if tier == "quick" else 60000):
+            nt = rng.range(3, 4)
+            nk = rng.range(1, 2)
+            idents = random_idents(rng, nk)
+            keys = [(rng.range(1, 3), rng.choice([OK, NOTFOUND, LOAD, PARSE])) + idents[i] for i in range(nk)]
+            tasks = [[(rng.below(nk), rng.below(3)) for _ in range(rng.range(1, 3))] for _ in range(nt)]
+            picks = [(100 + rng.below(nt)) if rng.chance(1, 4) else rng.below(nt) for _ in range(rng.range(2, 30))]
+            cases.append(fmt_case(3, tasks, keys, picks))
+            nd += 1
+        dist["drop_waiter"] = nd
+
+        # files: concurrent HttpSymbolSupplier::locate_file (FileKey = (module key, file kind)) against a loopback server
+        nf = 0
+        for r in range(400 if tier == "quick" else 6000):
+            nt = rng.range(2, 4)
+            nk = rng.range(1, 3)
+            # distinct (debug_file, debug_id) and distinct code files: distinct server and cache paths per file key
+            dpairs = [(1, 1), (1, 2), (2, 1), (2, 2)]
+            cfs = [1, 3, 4]
+            keys = []
+            for i in range(nk):
+                dp = dpairs.pop(rng.below(len(dpairs)))
+                cf = cfs.pop(rng.below(len(cfs)))
+                if rng.chance(1, 6):
+                    dp = (0, dp[1]) if rng.chance(1, 2) else (dp[0], 0)      # no debug info: no lookup of any kind
+                keys.append((rng.range(0, 3), rng.below(8), cf, rng.below(3), dp[0], dp[1]))
+            tasks = [[(rng.below(nk), rng.below(3)) for _ in range(rng.range(1, 3))] for _ in range(nt)]
+            picks = [rng.below(nt) for _ in range(rng.range(0, 12))]
+            cases.append(fmt_case(2, tasks, keys, picks))
+            nf += 1
+        dist["locate_file"] = nf
         return cases, dist, True
 
     # ------------------------------------------------------------------ canonical forms
@@ -238,11 +368,18 @@ class C12(PropBase):
             return "lost wake-up: unfinished tasks remain but no waker fired (a wake-driven executor would hang)"
         if status != "OK":
             return "unknown status " + status
-        asked = []
-        for lk in tasks:
+        if mode == 2:
+            return self.oracle_files(tasks, keys, log, res)
+        dropped = set()
+        if mode == 3 and mid != "-":
+            dropped = {int(e) - 100 for e in mid.split(".") if int(e) >= 100}
+        asked, must = [], []
+        for ti, lk in enumerate(tasks):
             for k, _ in lk:
                 if k not in asked:
                     asked.append(k)
+                if ti not in dropped and k not in must:
+                    must.append(k)
         logged = [] if log == "-" else log.split(".")
         for e in logged:
             if e == "?":
@@ -251,20 +388,24 @@ class C12(PropBase):
         for k in set(logged):
             if logged.count(k) > 1:
                 return "supplier asked %d times for module key %d %r" % (logged.count(k), k, keys[k][2:])
-        if sorted(logged) != sorted(asked):
-            missing = sorted(set(asked) - set(logged))
-            if missing:
-                other = [j for j in logged if j not in missing]
-                return ("supplier never asked for module key %d %r although it was requested (distinct modules %r were "
-                        "treated as one)" % (missing[0], keys[missing[0]][2:], [keys[j][2:] for j in other][:2]))
+        if set(logged) - set(asked):
             return "supplier asked for keys %r, requested were %r" % (logged, asked)
+        missing = sorted(set(must) - set(logged))
+        if missing:
+            other = [j for j in logged if j not in missing]
+            return ("supplier never asked for module key %d %r although it was requested (distinct modules %r were "
+                    "treated as one)" % (missing[0], keys[missing[0]][2:], [keys[j][2:] for j in other][:2]))
+        asked = sorted(set(logged))          # with drops: the modules actually located
         per_task = res.split("|")
         if len(per_task) != len(tasks):
             return "result rows %d != tasks %d" % (len(per_task), len(tasks))
         seen = {}
         for ti, (lk, row) in enumerate(zip(tasks, per_task)):
             got = [] if row == "-" else row.split(".")
-            if len(got) != len(lk):
+            if ti in dropped:
+                if len(got) > len(lk):
+                    return "dropped task %d reports more results than lookups" % ti
+            elif len(got) != len(lk):
                 return "task %d finished %d of its %d lookups: a request was lost" % (ti, len(got), len(lk))
             for (k, kind), g in zip(lk, got):
                 want = "S%d" % k if keys[k][1] == OK else "E"
@@ -300,6 +441,43 @@ class C12(PropBase):
         for leaf, ks in by_leaf.items():
             if st[leaf] not in [STAT[keys[k][1]] for k in ks]:
                 return "stats for leaf %d say loaded/corrupt=%r, supplier answered %r" % (leaf, st[leaf], [keys[k][1] for k in ks])
+        return None
+
+    def oracle_files(self, tasks, keys, log, res):
+        """mode 2: file keys (module key, kind); the log is what the loopback server was asked for"""
+        asked = []
+        for lk in tasks:
+            for k, kind in lk:
+                if (k, kind) not in asked:
+                    asked.append((k, kind))
+        logged = [] if log == "-" else log.split(".")
+        for e in logged:
+            if e.startswith("?"):
+                return "server was asked for a path no requested file maps to: " + e[1:]
+        logged = [int(e) for e in logged]
+        for fk in set(logged):
+            if logged.count(fk) > 1:
+                return "file (module %d, kind %d) was fetched %d times from the server" % (fk // 3, fk % 3, logged.count(fk))
+        want_log = sorted(3 * k + kind for (k, kind) in asked if file_has_lookup(keys[k], kind))
+        if sorted(logged) != want_log:
+            return "server saw requests for file keys %r, the requested files with a lookup path are %r" % (sorted(logged), want_log)
+        per_task = res.split("|")
+        if len(per_task) != len(tasks):
+            return "result rows %d != tasks %d" % (len(per_task), len(tasks))
+        seen = {}
+        for ti, (lk, row) in enumerate(zip(tasks, per_task)):
+            got = [] if row == "-" else row.split(".")
+            if len(got) != len(lk):
+                return "task %d finished %d of its %d locate_file calls: a request was lost" % (ti, len(got), len(lk))
+            for (k, kind), g in zip(lk, got):
+                fk = 3 * k + kind
+                found = file_has_lookup(keys[k], kind) and (keys[k][1] >> kind) & 1 == 1
+                want = "S%d" % fk if found else "E"
+                if fk in seen and seen[fk] != g:
+                    return "two requesters of file (module %d, kind %d) observed different outcomes: %s and %s" % (k, kind, seen[fk], g)
+                seen.setdefault(fk, g)
+                if g != want:
+                    return "locate_file(module %d, kind %d) observed %s, the server's single answer means %s" % (k, kind, g, want)
         return None
 
     def nontrivial(self, case, ans):
